@@ -380,7 +380,7 @@ func aggregateRows(selectList sql.SelectList, groupBy []sql.ColumnReference, row
 
 				// update the count of this particular group key + value
 				// combination
-				countKey := fmt.Sprintf("%s%s", key, avgCol)
+				countKey := fmt.Sprintf("%d:%d:%s", groupKeyIdx, colIdx, avgCol)
 				if _, ok := counts[countKey]; !ok {
 					counts[countKey] = 0
 				}
